@@ -309,21 +309,21 @@ func genPauseModel(c *ctx) {
 		}
 	}
 
-	// every schedule is run three times at once: the machine may be busy and a sleep that ends a few ms late can
+	// every schedule is run three times: the machine may be busy and a sleep that ends a few ms late can
 	// flip the order of a wake-up and the next scripted event; the model has to explain at least one of the runs
 	// (a real disagreement shows in all three)
 	const attempts = 3
 	alts := make([][]*c18Scn, len(scns))
-	var all []*c18Scn
-	for i, s := range scns {
-		all = append(all, s)
-		for a := 1; a < attempts; a++ {
+	parallelDo(len(scns), len(scns), func(i int) { c18Run(scns[i]) })
+	for a := 1; a < attempts; a++ { // one wave after the other: three times as many goroutines at once would disturb each other
+		wave := make([]*c18Scn, len(scns))
+		for i, s := range scns {
 			cp := *s
+			wave[i] = &cp
 			alts[i] = append(alts[i], &cp)
-			all = append(all, &cp)
 		}
+		parallelDo(len(wave), len(wave), func(i int) { c18Run(wave[i]) })
 	}
-	parallelDo(len(all), len(all), func(i int) { c18Run(all[i]) })
 
 	for si, s := range scns {
 		c.count("family:" + s.family)
